@@ -191,7 +191,9 @@ func decide(ob *Obligation, script string, cfg *SolverCfg) *ObResult {
 	}
 	ctx1, cancel1 := context.WithCancel(context.Background())
 	ch1 := make(chan r1, 2)
-	for _, sv := range []string{"z3-new", "cvc5"} {
+	stage1 := []string{"z3-new", "cvc5", "z3-new-as2"}
+	ch1 = make(chan r1, len(stage1))
+	for _, sv := range stage1 {
 		go func(sv string) {
 			v, o, s := runSolver(ctx1, sv, script, cfg.QuickTimeout, cfg.Seed, false)
 			ch1 <- r1{v, sv, o, s}
@@ -199,7 +201,7 @@ func decide(ob *Obligation, script string, cfg *SolverCfg) *ObResult {
 	}
 	var v, out string
 	var secs float64
-	for k := 0; k < 2; k++ {
+	for k := 0; k < len(stage1); k++ {
 		x := <-ch1
 		if x.v == "unsat" || x.v == "sat" {
 			cancel1()
